@@ -92,11 +92,11 @@ func c08Prelude() []zn.Stmt {
 		// an object of it with arguments: the constructor is attached by then
 		// an object that its own constructor hands to another holder is THE object 新建 yields
 		zn.Decl{Pairs: []zn.DeclPair{{Names: []string{"最近"}, Val: v("空")}}},
-		zn.Class{Name: "记", Props: []zn.Prop{{Name: "名", Val: num(0)}}},
-		zn.Func{Name: "记", Ctor: true, Params: []string{"甲"}, Body: []zn.Stmt{
+		zn.Class{Name: "录", Props: []zn.Prop{{Name: "名", Val: num(0)}}},
+		zn.Func{Name: "录", Ctor: true, Params: []string{"甲"}, Body: []zn.Stmt{
 			zn.ExprStmt{E: zn.Assign{Target: this("名"), Val: v("甲")}}, zn.ExprStmt{E: zn.Assign{Target: v("最近"), Val: this("自身")}}}},
 		zn.Func{Name: "试记", Params: []string{"甲"}, Body: []zn.Stmt{
-			zn.Decl{Pairs: []zn.DeclPair{{Names: []string{"物"}, Val: zn.New{Class: "记", Args: []zn.Expr{v("甲")}}}}},
+			zn.Decl{Pairs: []zn.DeclPair{{Names: []string{"物"}, Val: zn.New{Class: "录", Args: []zn.Expr{v("甲")}}}}},
 			zn.ExprStmt{E: zn.Assign{Target: zn.Member{Root: v("物"), Name: "名"}, Val: bin("+", v("甲"), num(100))}},
 			ret(zn.Member{Root: v("最近"), Name: "名"})}},
 		zn.Class{Name: "角", Props: []zn.Prop{{Name: "横", Val: num(0)}, {Name: "纵", Val: num(0)}}},
